@@ -132,7 +132,7 @@ Proof.
   - destruct Hpre as (Hk & Hc & Hr). eexists; split; [reflexivity|].
     rewrite cc_setoption, Hk. unfold is_attr_value. rewrite (escape_sound_lemma v Hc Hr). now rewrite orb_true_r.
   - destruct Hpre as (Hk & Hc & Hr). eexists; split; [reflexivity|].
-    destruct cv; [rewrite cc_setoption | rewrite cc_setinfo]; rewrite Hk; unfold is_attr_value;
+    destruct cv; [rewrite cc_setoption | rewrite cc_setinfo | rewrite cc_setinfo]; rewrite Hk; unfold is_attr_value;
       rewrite (SmtSerLemmas.escape_sound_lemma _ v Hc Hr); now rewrite orb_true_r.
   - destruct Hpre as (Hok & Ht). eexists; split; [reflexivity|].
     rewrite cc_assert, (expr_sort G e Hok), Ht. reflexivity.
@@ -187,14 +187,17 @@ Proof.
 Qed.
 
 (** repaired code: every command carries the name SMT-LIB gives it *)
+Theorem cmd_head_repaired :
+  forall v c t, v <> Cur -> ser_cmd v c = Ok t -> sx_head t = Some (cmd_std_head c).
+Proof.
+  intros v c t Hv H. destruct v; [now elim Hv | |]; destruct c; cbn [ser_cmd] in H;
+    try (inversion H; subst; reflexivity);
+    destruct (symbol_name_of sym); inversion H; subst; reflexivity.
+Qed.
+
 Theorem cmd_head_fix :
   forall c t, ser_cmd Fix c = Ok t -> sx_head t = Some (cmd_std_head c).
-Proof.
-  intros c t H. destruct c; cbn [ser_cmd] in H;
-    try (inversion H; subst; reflexivity).
-  - destruct (symbol_name_of sym); inversion H; subst; reflexivity.
-  - destruct (symbol_name_of sym); inversion H; subst; reflexivity.
-Qed.
+Proof. intros c t. apply cmd_head_repaired. discriminate. Qed.
 
 (** ** recorded defect 2 (current code): a reserved word is written without quotes, although
     the quoted form would be a symbol *)
@@ -209,6 +212,10 @@ Theorem escape_sound_outside_known :
 Proof. exact (escape_sound_lemma Cur). Qed.
 
 (** repaired code: [escape_sound] without exception *)
+Theorem escape_sound_repaired_lemma :
+  forall v n, v <> Cur -> name_chars_ok n = true -> symbol_name (escape_id v n) = Some n.
+Proof. exact escape_sound_repaired. Qed.
+
 Theorem escape_sound_fix_lemma :
   forall n, name_chars_ok n = true -> symbol_name (escape_id Fix n) = Some n.
 Proof. exact escape_sound_fix. Qed.
